@@ -100,3 +100,17 @@ func (ra *RevAuthority) RevokedIn(e *big.Int, from, to int) bool {
 	}
 	return false
 }
+
+// PinTime re-signs accumulator i with a fixed time (engine T-race runs outside a
+// synctest bubble: no real clock value may reach a message).
+func (ra *RevAuthority) PinTime(i int, t int64) error {
+	acc := *ra.Accs[i]
+	acc.Time = t
+	sacc, err := acc.Sign(ra.Key.Sk)
+	if err != nil {
+		return err
+	}
+	ra.Accs[i] = &acc
+	ra.SAccs[i] = sacc
+	return nil
+}
